@@ -317,22 +317,42 @@ Proof.
 Qed.
 
 (** the transaction Fund returns is well-formed when the start transaction and the supplied UTXOs are *)
+Lemma wf_of_utxo u : valid_utxo u -> wf_utxob u = true -> wf_input (of_utxo u).
+Proof.
+  intros Fv Fw. unfold wf_utxob in Fw.
+  apply andb_prop in Fw. destruct Fw as [Fw F3]. apply andb_prop in Fw. destruct Fw as [F1 F2].
+  unfold wf_input, of_utxo, wf_script. cbn [in_txid in_vout in_seq in_sats in_unlock in_script].
+  split; [exact Fv|]. split; [lia|]. split; [reflexivity|]. split; [lia|]. split; [reflexivity|].
+  destruct (u_script u); [lia|exact I].
+Qed.
+
 Lemma wf_add_all t l : wf_tx t -> ~ ambiguous t -> Forall valid_utxo l -> forallb wf_utxob l = true ->
   N.of_nat (length (tx_ins t) + length l) < two64 ->
   wf_tx (add_all t l) /\ ~ ambiguous (add_all t l).
 Proof.
   intros (V & L & I & O & NI & NO) A Fv Fw Hn. split.
-  - unfold wf_tx, add_all. cbn [tx_version tx_lock tx_ins tx_outs]. repeat split; auto.
+  - unfold wf_tx, add_all. cbn [tx_version tx_lock tx_ins tx_outs].
+    split; [exact V|]. split; [exact L|]. split; [|split; [exact O|split; [|exact NO]]].
     + apply Forall_app. split; [exact I|]. apply Forall_forall. intros i Hi. apply in_map_iff in Hi.
       destruct Hi as (u & <- & Hu). rewrite Forall_forall in Fv. rewrite forallb_forall in Fw.
-      specialize (Fv u Hu). specialize (Fw u Hu). unfold wf_utxob in Fw.
-      apply andb_prop in Fw. destruct Fw as [Fw F3]. apply andb_prop in Fw. destruct Fw as [F1 F2].
-      unfold wf_input, of_utxo, wf_script. cbn [in_txid in_vout in_seq in_sats in_unlock in_script].
-      repeat split; try lia; try exact Fv; try (vm_compute; reflexivity).
-      destruct (u_script u); [lia|exact I0].
+      apply wf_of_utxo; auto.
     + rewrite app_length, map_length. exact Hn.
   - intros (Hi & Ho & Hl). cbn [add_all tx_ins tx_outs tx_lock] in *.
     apply app_eq_nil in Hi. destruct Hi as [Hi Hm]. apply A. repeat split; assumption.
+Qed.
+
+Lemma consumed_valid hist : forallb wf_responseb hist = true -> forall c,
+  (forall j, (j < c)%nat -> exists us, nth_error hist j = Some (Batch us) /\ Forall valid_utxo us) ->
+  Forall valid_utxo (concat (map batch_utxos (firstn c hist))) /\
+  forallb wf_utxob (concat (map batch_utxos (firstn c hist))) = true.
+Proof.
+  induction hist as [|resp rest IH]; intros Fh [|c] S3; cbn [firstn map concat]; try (split; [constructor|reflexivity]).
+  cbn [forallb] in Fh. apply andb_prop in Fh. destruct Fh as [F1 F2].
+  destruct (S3 0%nat ltac:(lia)) as (us & E0 & V0). cbn [nth_error] in E0. injection E0 as ->.
+  destruct (IH F2 c) as [I1 I2].
+  { intros j Hj. destruct (S3 (S j) ltac:(lia)) as (us' & E' & V'). exists us'. split; [exact E'|exact V']. }
+  cbn [batch_utxos wf_responseb] in *. split; [apply Forall_app; split; assumption|].
+  rewrite forallb_app, F1, I2. reflexivity.
 Qed.
 
 Theorem fund_covers_wf t q hist :
@@ -344,19 +364,13 @@ Theorem fund_covers_wf t q hist :
     sum_out (f_tx r) + quoted_fee sf df (sz_std sz) (sz_data sz) <= sum_in (f_tx r).
 Proof.
   cbv zeta. intros W A Fh Hn NO Hr.
-  destruct (fund_covers t q hist Hr) as [_ C]. apply C; [| |exact NO].
-  all: revert Hr Hn; unfold fund; destruct (estimate_deficit t q) as [d| | |] eqn:E; cbn [f_res f_tx]; try discriminate;
-    intros Hr Hn; destruct (fund_loop_spec q hist t d E) as (_ & _ & _ & _ & _ & _ & S & _);
-    destruct (S Hr) as (S1 & _ & S3); rewrite S1 in Hn |- *; unfold inter in *;
-    assert (Fv : Forall valid_utxo (concat (map batch_utxos (firstn (f_consumed (fund_loop q hist t d)) hist))) /\
-                 forallb wf_utxob (concat (map batch_utxos (firstn (f_consumed (fund_loop q hist t d)) hist))) = true).
-  1,3: (generalize dependent (f_consumed (fund_loop q hist t d)); clear -Fh; intros c; revert c;
-        induction hist as [|resp rest IH]; intros [|c] S3 _; cbn [firstn map concat]; try (split; [constructor|reflexivity]);
-        cbn [forallb] in Fh; apply andb_prop in Fh; destruct Fh as [F1 F2];
-        destruct (S3 0%nat ltac:(lia)) as (us & E0 & V0); cbn [nth_error] in E0; injection E0 as ->;
-        destruct (IH F2 c) as [I1 I2];
-        [intros j Hj; destruct (S3 (S j) ltac:(lia)) as (us' & E' & V'); exists us'; split; [exact E'|exact V']| exact I|];
-        cbn [batch_utxos wf_responseb] in *; split; [apply Forall_app; split; assumption|rewrite forallb_app, F1, I2; reflexivity]).
-  all: destruct Fv as [Fv Fw]; cbn [add_all tx_ins] in Hn; rewrite app_length, map_length in Hn;
-    apply (wf_add_all t _ W A Fv Fw Hn).
+  destruct (fund_covers t q hist Hr) as [_ C].
+  assert (WA : wf_tx (f_tx (fund t q hist)) /\ ~ ambiguous (f_tx (fund t q hist))).
+  { revert Hr Hn. unfold fund. destruct (estimate_deficit t q) as [d| | |] eqn:E; cbn [f_res f_tx]; try discriminate.
+    intros Hr Hn. destruct (fund_loop_spec q hist t d E) as (_ & _ & _ & _ & _ & _ & S & _).
+    destruct (S Hr) as (S1 & _ & S3). rewrite S1 in Hn |- *. unfold inter in *.
+    destruct (consumed_valid hist Fh _ S3) as [Fv Fw].
+    cbn [add_all tx_ins] in Hn. rewrite app_length, map_length in Hn.
+    apply (wf_add_all t _ W A Fv Fw Hn). }
+  destruct WA as [W' A']. apply C; assumption.
 Qed.
